@@ -42,9 +42,17 @@ func NewChan[T any](n ...int) *Chan[T] {
 	if S != nil {
 		_, t := cur()
 		c.id = t.newObjID()
+	} else {
+		// made outside an execution: a package-level channel of the code under test, (re)created by the
+		// per-execution reset of package-level state in a fixed order
+		preExecObjs++
+		c.id = mix(0x9e3779b97f4a7c15, preExecObjs)
 	}
 	return c
 }
+
+// preExecObjs counts the objects made outside an execution since the last reset (Explorer.runOne).
+var preExecObjs uint64
 
 // Len / Cap replace len(c) / cap(c).
 func (c *Chan[T]) Len() int {
@@ -397,6 +405,18 @@ func Recv2[T any](c *Chan[T]) (T, bool) {
 
 // Close replaces close(c).
 func Close[T any](c *Chan[T]) {
+	if S == nil {
+		// a package-level initialiser of the code under test closing a channel it has just made
+		// (program start, or the per-execution reset of package-level state): nobody else is running
+		if c == nil {
+			panic("close of nil channel")
+		}
+		if c.closed {
+			panic("close of closed channel")
+		}
+		c.closed = true
+		return
+	}
 	s, t := cur()
 	if s.aborting {
 		return
